@@ -2,6 +2,8 @@ package main
 
 import (
 	"math/big"
+	"os"
+	"strings"
 
 	acore "github.com/artela-network/artela-evm/core"
 	avm "github.com/artela-network/artela-evm/vm"
@@ -14,6 +16,15 @@ import (
 	"github.com/ethereum/go-ethereum/crypto"
 	"github.com/ethereum/go-ethereum/params"
 )
+
+// repoPrefix: where the system under test's sources live (stack-frame attribution).
+// VERIF_REPO lets a background soak run build against a snapshot of /repo.
+var repoPrefix = func() string {
+	if r := os.Getenv("VERIF_REPO"); r != "" {
+		return strings.TrimRight(r, "/") + "/"
+	}
+	return "/repo/"
+}()
 
 var forkOrder = []string{"Frontier", "Homestead", "Tangerine", "Spurious", "Byzantium", "Constantinople",
 	"Petersburg", "Istanbul", "Berlin", "London", "Merge", "Shanghai", "Cancun"}
